@@ -66,7 +66,10 @@ class C03Replayer(MdibReplayer):
                     apply_tok(obj.state, t) if hasattr(obj, 'state') else None
         elif src == 'entity':   # fresh entities from the entity getter
             for a in self.proj.handles:
-                ent = self.mdib.entities.by_handle(self.conc(a))
+                try:
+                    ent = self.mdib.entities.by_handle(self.conc(a))
+                except KeyError:   # descriptor without state: the entity getter cannot build an entity
+                    continue
                 if ent is None:
                     continue
                 apply_tok(ent.descriptor, t)
@@ -88,6 +91,8 @@ class C03Replayer(MdibReplayer):
     def step(self, rec):
         out = super().step(rec)
         out['published_same'] = self.published_same()
+        if not out['published_same']:   # report a change once, at the step that made it
+            self.results = [(r, self._canon_result(r)) for r, _ in self.results]
         return out
 
 
@@ -146,18 +151,24 @@ def run_family(run, pid, extra_behaviours=None):
         if any(r['act'] == 'Commit' for r in t):
             run.distinct_traces.add(sig)
     run.sample([{k: v for k, v in r.items() if k != 'post'} for r in traces[0][:12]])
-    for (ti, li, clause) in tracecheck.first_rejects(mine):
-        rec = traces[ti][li]
-        prev_ops = [r['act'] for r in traces[ti][:li + 1]]
-        tx_ops = []
-        for r in traces[ti][:li + 1]:
-            if r['act'] == 'Begin':
-                tx_ops = [f"Begin:{r['kind']}"]
-            elif r['act'] != 'Init':
-                tx_ops.append(r['act'])
-        descr = {'check': 'mdib', 'clause': clause, 'act': rec['act'], 'tx': tx_ops[0] if tx_ops else ''}
-        if rec['act'] == 'MutateCopy':
-            descr['src'] = rec['src']
-        run.violation(descr, f'{clause} fails at {rec["act"]} ({" ".join(tx_ops[-6:])})',
-                      {'behaviour': behs[ti], 'trace': traces[ti], 'failing_record': li})
+    by_trace = {}
+    for r in sorted(mine, key=lambda x: (x[0], x[1])):
+        by_trace.setdefault(r[0], []).append(r)
+    for ti, rs in by_trace.items():
+        for (_, li, clause) in rs:
+            rec = traces[ti][li]
+            tx_ops = []
+            for r in traces[ti][:li + 1]:
+                if r['act'] == 'Begin':
+                    tx_ops = [f"Begin:{r['kind']}"]
+                elif r['act'] != 'Init':
+                    tx_ops.append(r['act'])
+            descr = {'check': 'mdib', 'clause': clause, 'act': rec['act'], 'tx': tx_ops[0] if tx_ops else ''}
+            if rec['act'] == 'MutateCopy':
+                descr['src'] = rec['src']
+            if run.is_known(descr):
+                continue   # a listed finding; keep looking for an unlisted one later in the same trace
+            run.violation(descr, f'{clause} fails at {rec["act"]} ({" ".join(tx_ops[-6:])})',
+                          {'behaviour': behs[ti], 'trace': traces[ti], 'failing_record': li})
+            break
     return behs, traces
